@@ -90,7 +90,15 @@ type Spec struct {
 	Rec    bool // recursive: declared uninterpreted, unfolded only by explicit hints
 }
 
+type Ufun struct {
+	Name   string
+	Params []string
+	Ret    string
+}
+
 type FuncContract struct {
+	Defines  []*Clause
+	Justify  string
 	Name     string
 	Requires []*Clause
 	Ensures  []*Clause
@@ -113,6 +121,7 @@ type LoopContract struct {
 }
 
 type Contracts struct {
+	Ufuns map[string]*Ufun
 	Specs map[string]*Spec
 	Funcs map[string]*FuncContract
 	Order []string
@@ -598,14 +607,14 @@ func parseModItem(s string) (ModItem, error) {
 	return mi, nil
 }
 
-var clauseKeywords = map[string]bool{"requires": true, "ensures": true, "modifies": true, "loop": true, "rank": true, "inline": true, "cost": true, "lemma": true, "trusted": true}
+var clauseKeywords = map[string]bool{"defines": true, "justify": true, "requires": true, "ensures": true, "modifies": true, "loop": true, "rank": true, "inline": true, "cost": true, "lemma": true, "trusted": true}
 
 func loadContracts(path string) (*Contracts, error) {
 	data, err := os.ReadFile(path)
 	if err != nil {
 		return nil, err
 	}
-	cs := &Contracts{Specs: map[string]*Spec{}, Funcs: map[string]*FuncContract{}}
+	cs := &Contracts{Specs: map[string]*Spec{}, Funcs: map[string]*FuncContract{}, Ufuns: map[string]*Ufun{}}
 	type rawClause struct {
 		text string
 		line int
@@ -629,7 +638,7 @@ func loadContracts(path string) (*Contracts, error) {
 		if k := strings.IndexAny(bt, " \t"); k >= 0 {
 			first = bt[:k]
 		}
-		if first == "spec" || first == "specrec" || first == "func" || first == "axiom" || clauseKeywords[first] {
+		if first == "spec" || first == "specrec" || first == "func" || first == "axiom" || first == "ufun" || clauseKeywords[first] {
 			raws = append(raws, rawClause{bt, i + 1})
 		} else {
 			if len(raws) == 0 {
@@ -688,6 +697,21 @@ func loadContracts(path string) (*Contracts, error) {
 			sp.Body = ex
 			cs.Specs[name] = sp
 			cur = nil
+		case "ufun":
+			// NAME(type, type) ret
+			k := strings.IndexByte(rest, '(')
+			e := strings.LastIndexByte(rest, ')')
+			if k < 0 || e < k {
+				return nil, fail(fmt.Errorf("bad ufun declaration"))
+			}
+			u := &Ufun{Name: strings.TrimSpace(rest[:k]), Ret: strings.TrimSpace(rest[e+1:])}
+			for _, p := range strings.Split(rest[k+1:e], ",") {
+				if t := strings.TrimSpace(p); t != "" {
+					u.Params = append(u.Params, t)
+				}
+			}
+			cs.Ufuns[u.Name] = u
+			cur = nil
 		case "func":
 			cur = &FuncContract{Name: rest, Loops: map[int]*LoopContract{}, Line: rc.line}
 			if _, dup := cs.Funcs[rest]; dup {
@@ -706,6 +730,15 @@ func loadContracts(path string) (*Contracts, error) {
 				cur.Inline = true
 			case "trusted":
 				cur.Trusted = true
+			case "justify":
+				cur.Justify = strings.TrimSpace(rest)
+			case "defines":
+				tags, label, ex := parseTagsLabel(rest)
+				e, err := parseExprString(ex)
+				if err != nil {
+					return nil, fail(err)
+				}
+				cur.Defines = append(cur.Defines, &Clause{Kind: "defines", Tags: tags, Label: label, E: e, Line: rc.line, Text: ex})
 			case "requires", "ensures":
 				tags, label, ex := parseTagsLabel(rest)
 				e, err := parseExprString(ex)
